@@ -170,7 +170,7 @@ func n3Round(t *testing.T, r *kit.Run, n, cases int, thresholds map[int]int) {
 		r.Count(R+"_accepted", 1)
 		switch {
 		case script.Hash.String() != tracked.Hash.String():
-			r.Violation(R+":stateroot-wrong-script-accepted", fmt.Sprintf("state root accepted with a verification script (%s) that is not the state validators' %d-of-%d script", shape, T, n), replay)
+			viol(r, R+":stateroot-wrong-script-accepted", fmt.Sprintf("state root accepted with a verification script (%s) that is not the state validators' %d-of-%d script", shape, T, n), replay)
 		case distinct < T:
 			key := R + ":stateroot-below-threshold-accepted"
 			for _, k := range kinds {
@@ -178,7 +178,7 @@ func n3Round(t *testing.T, r *kit.Run, n, cases int, thresholds map[int]int) {
 					key = R + ":stateroot-duplicate-signer-counted"
 				}
 			}
-			r.Violation(key, fmt.Sprintf("state root accepted with %d distinct state-validator signer(s), needs %d of %d", distinct, T, n), replay)
+			viol(r, key, fmt.Sprintf("state root accepted with %d distinct state-validator signer(s), needs %d of %d", distinct, T, n), replay)
 		}
 	}
 }
